@@ -425,3 +425,96 @@ def nexus_model(program, ctx, fast_math=None):
     ev = NexusEvaluator(program, ctx, cost_flags={"fast_math": Unknown("fast_math") if fast_math is None else fast_math})
     ev.run_method("_init_nexus")
     return ev.graph, ev.trace
+
+
+# ---------------------------------------------------------------------------------------------------------- cost model
+class CostEvaluator(Evaluator):
+    """Interprets a CostFunction* constructor for one keyword configuration."""
+
+    def __init__(self, program, ctx):
+        super().__init__(program, ctx)
+        self.depth = 0
+
+    def self_attr(self, name):
+        if name in self.fields:
+            return self.fields[name]
+        r = self.ctx.lookup(name)
+        if r and r[0] == "prop" and r[1].fget is not None and self.depth < 4:
+            self.depth += 1
+            try:
+                res = self.block(r[1].fget.node.body, {}, r[1].fget)
+            finally:
+                self.depth -= 1
+            return res[1] if res else None
+        return super().self_attr(name)
+
+    def ev(self, e, env, f):
+        if isinstance(e, ast.Attribute) and e.attr == "__name__":
+            base = self.ev(e.value, env, f)
+            if isinstance(base, tuple) and base and base[0] == "method":
+                return base[2]
+            return Unknown("__name__")
+        return super().ev(e, env, f)
+
+    def hook(self, src, e, env, f):
+        if src == "list" and e.args:
+            v = self.ev(e.args[0], env, f)
+            if isinstance(v, (list, tuple)):
+                return list(v)
+            # list(signature(handle).parameters.keys()) -> formal parameter names of the handle
+            h = self.fields.get("_cost_function_handle")
+            if isinstance(h, tuple) and h and h[0] == "method":
+                m = self.ctx.find_method(h[2])
+                if m is not None:
+                    ps = m.params()
+                    if m.kind not in ("static",) and ps and ps[0] in ("self", "cls"):
+                        ps = ps[1:]
+                    return list(ps)
+            return Unknown("list")
+        if src == "len" and e.args:
+            v = self.ev(e.args[0], env, f)
+            return len(v) if isinstance(v, (list, tuple, str)) else Unknown("len")
+        if src == "type(self)":
+            kw = self.kwargs(e, env, f)
+            return ("costmodel", cost_model(self.p, self.ctx, kw))
+        if src in ("signature", "CostFunctionFormatter", "ParameterFormatter"):
+            return Unknown(src)
+        return NotImplemented
+
+
+def cost_model(program, ctx, kwargs):
+    """-> dict(handle, formals, arg_names, flags..., fields) for CostFunction class ctx constructed with literal kwargs"""
+    ev = CostEvaluator(program, ctx)
+    init = ctx.find_method("__init__")
+    if init is None:
+        raise AnalysisError("cost class %s has no __init__" % ctx.name)
+    args = dict(kwargs)
+    ev.run_method("__init__", args)
+    fl = ev.fields
+    h = fl.get("_cost_function_handle")
+    handle_name = h[2] if isinstance(h, tuple) and h and h[0] == "method" else None
+    # MultiCostFunction-style `K.cost_sum`
+    formals = None
+    hm = ctx.find_method(handle_name) if handle_name else None
+    if hm is not None:
+        formals = hm.params()
+        if hm.kind != "static" and formals and formals[0] in ("self", "cls"):
+            formals = formals[1:]
+    an = fl.get("_arg_names")
+    out = {
+        "cls": ctx.name,
+        "kwargs": dict(kwargs),
+        "handle": handle_name,
+        "handle_func": hm,
+        "formals": formals,
+        "arg_names": list(an) if isinstance(an, list) and not any(is_unknown(x) for x in an) else None,
+        "fields": fl,
+        "trace": ev.trace,
+    }
+    # evaluate the read-only properties we need
+    for prop in ("pointwise", "pointwise_version"):
+        try:
+            out[prop] = ev.self_attr(prop)
+        except Exception as e:  # pragma: no cover
+            out[prop] = Unknown(str(e))
+    return out
